@@ -190,6 +190,72 @@ func (c *Ctx) ruleX2() {
 			}
 		})
 	}
+	// the other way to order a pair: compare and swap, then concatenate
+	for _, f := range c.fnsInPkg("pubsub/oneonone") {
+		if c.isTestFile(f.Pos()) || f.Parent() != nil || n > 0 {
+			continue
+		}
+		if f.Signature.Results().Len() != 1 || typeStr(f.Signature.Results().At(0).Type()) != "string" {
+			continue
+		}
+		var phis []*ssa.Phi
+		eachInstr(f, func(in ssa.Instruction) {
+			if ph, ok := in.(*ssa.Phi); ok && typeStr(ph.Type()) == "string" && len(ph.Edges) == 2 {
+				phis = append(phis, ph)
+			}
+		})
+		for i := 0; i < len(phis); i++ {
+			for j := i + 1; j < len(phis); j++ {
+				a, b := phis[i], phis[j]
+				if a.Block() != b.Block() || a.Edges[0] != b.Edges[1] || a.Edges[1] != b.Edges[0] || a.Edges[0] == a.Edges[1] {
+					continue
+				}
+				x, y := a.Edges[0], a.Edges[1]
+				sx, sy := nf(x), nf(y)
+				self := strings.Contains(sx, "selfID") || strings.Contains(sy, "selfID")
+				peer := strings.Contains(sx, "param:p") || strings.Contains(sy, "param:p")
+				if !self || !peer {
+					continue
+				}
+				// the selection is decided by a comparison of the two strings
+				decided := false
+				dxy := derived([]ssa.Value{x, y}, flowOpts{throughCalls: true})
+				for _, pr := range a.Block().Preds {
+					for _, q := range append([]*ssa.BasicBlock{pr}, pr.Preds...) {
+						if len(q.Instrs) == 0 {
+							continue
+						}
+						if iff, ok := q.Instrs[len(q.Instrs)-1].(*ssa.If); ok && dxy[iff.Cond] {
+							decided = true
+						}
+					}
+				}
+				// both ordered values reach the returned name
+				dab := derived([]ssa.Value{a}, flowOpts{throughCalls: true})
+				dbb := derived([]ssa.Value{b}, flowOpts{throughCalls: true})
+				both := false
+				eachInstr(f, func(in ssa.Instruction) {
+					if r, ok := in.(*ssa.Return); ok && len(r.Results) == 1 {
+						for _, v := range resolveSpill(r.Results[0]) {
+							if dab[v] && dbb[v] {
+								both = true
+							}
+						}
+					}
+				})
+				if !both {
+					continue
+				}
+				n++
+				cons := fnKey(f) + "→channel-id"
+				if decided {
+					c.ok("X2", cons, a.Pos(), "channel name = the local and the remote id put in order by a comparison, then concatenated")
+				} else {
+					c.bad("X2", cons, a.Pos(), "the two peer ids are swapped on a condition that does not compare them: the two ends can derive different channel names")
+				}
+			}
+		}
+	}
 	c.floor("X2", "pairwise channel name constructions", n, 1)
 }
 
